@@ -195,7 +195,7 @@ func runReal(e *env, cls int) {
 		failM(c, m, "uninterrupted run")
 	}
 	rc.ref = refImg
-	rc.checkFinal(refImg, rc.fF, "uninterrupted run", false)
+	rc.checkFinal(refImg, rc.fF, "uninterrupted run", "", false)
 	c.Evals++
 
 	switch cls {
@@ -312,20 +312,31 @@ func pickPoints(t interface {
 
 // checkFinal: a completed upgrade holds the pre-migration content, empty old buckets, clean
 // bookkeeping, and (unless it IS the uninterrupted run) the uninterrupted run's key-value image.
-func (rc *realCase) checkFinal(img *memory.Database, f flags, what string, compare bool) {
+func (rc *realCase) checkFinal(img *memory.Database, f flags, what, kind string, compare bool) {
 	c := rc.e.c
+	var d *string
+	if compare {
+		// the uninterrupted run's image has passed every check below: an identical image needs none
+		if d = imageDiff(c, img, rc.ref); d == nil {
+			return
+		}
+	}
+	suffix := ""
+	if kind != "" {
+		suffix = "_after_" + kind
+	}
 	if m := checkFinished(img, f.target(), true); m != nil {
+		m.key += suffix
 		failM(c, m, what)
 	}
 	m, ev := checkData(rc.w, img, true)
 	c.Evals += ev
 	if m != nil {
+		m.key += suffix
 		failM(c, m, what)
 	}
-	if compare {
-		if d := imageDiff(c, img, rc.ref); d != nil {
-			c.Fail("final_image_differs", "bucket_"+diffBuckets(c, img, rc.ref), "%s: final key-value image differs from the uninterrupted run's: %s", what, *d)
-		}
+	if d != nil {
+		c.Fail("final_image_differs", "bucket_"+diffBuckets(c, img, rc.ref)+suffix, "%s: final key-value image differs from the uninterrupted run's: %s", what, *d)
 	}
 }
 
@@ -351,7 +362,7 @@ func (rc *realCase) finish(img *memory.Database, f flags, in inject, what, kind 
 		failM(c, m, what+", restarted")
 	}
 	if f == rc.fF {
-		rc.checkFinal(img, f, what+", restarted", true)
+		rc.checkFinal(img, f, what+", restarted", kind, true)
 	}
 	return r
 }
@@ -374,7 +385,7 @@ func (rc *realCase) crashProbes(infos []opInfo) {
 // to switch one off.
 func (rc *realCase) cancelClass() {
 	e, c, t := rc.e, rc.e.c, rc.e.c.T
-	points := pickPoints(t, "cancel.j", rc.nOps+1, 40)
+	points := pickPoints(t, "cancel.j", rc.nOps+1, 28)
 	stages := map[string]bool{}
 	resumedWithState := false
 	for _, j := range points {
